@@ -215,7 +215,12 @@ void AsyncPipe::Impl::cleanup()
         return;
 
     TBOX_VERIF_SCHED_POINT("async_pipe.cleanup_before_stop");
-    stop_signal_ = true;
+    {
+        //! stop_signal_ is read by the backend thread's wait predicate under full_buffers_mutex_,
+        //! it must be written under the same mutex, otherwise the notify can be missed
+        std::lock_guard<std::mutex> lg(full_buffers_mutex_);
+        stop_signal_ = true;
+    }
     full_buffers_cv_.notify_all();
     backend_thread_.join();
     stop_signal_ = false;
